@@ -50,6 +50,8 @@ impl RetryBudget for RecBudget {
 
 #[derive(Clone, Copy, Debug, PartialEq)]
 pub enum Backoff {
+    /// retry at once
+    Zero,
     Fixed,
     Exponential,
     Capped,
@@ -61,6 +63,7 @@ impl Backoff {
     fn delay(&self, k: usize) -> u64 {
         let a = (k - 1) as u32;
         match self {
+            Backoff::Zero => 0,
             Backoff::Fixed => 10,
             Backoff::Exponential => 10 * 2u64.pow(a),
             Backoff::Capped => (10 * 2u64.pow(a)).min(25),
@@ -102,6 +105,7 @@ pub fn build(cfg: &Cfg, shared: trv_core::inner::Shared) -> (Svc, Option<Arc<Rec
         b = b.max_attempts(cfg.max_attempts);
     }
     b = match cfg.backoff {
+        Backoff::Zero => b.fixed_backoff(Duration::ZERO),
         Backoff::Fixed => b.fixed_backoff(Duration::from_millis(10)),
         Backoff::Exponential => b.exponential_backoff(Duration::from_millis(10)),
         Backoff::Capped => b.backoff(ExponentialBackoff::new(Duration::from_millis(10)).max_interval(Duration::from_millis(25))),
@@ -186,7 +190,7 @@ pub fn grid(tier: Tier) -> Vec<Cfg> {
     let mut v = vec![];
     for max_attempts in 0..=tier.pick(3usize, 4) {
         for per_request in [false, true] {
-            for backoff in [Backoff::Fixed, Backoff::Exponential, Backoff::Capped, Backoff::Fn] {
+            for backoff in [Backoff::Zero, Backoff::Fixed, Backoff::Exponential, Backoff::Capped, Backoff::Fn] {
                 for predicate in [false, true] {
                     for budget in [BudgetKind::None, BudgetKind::Token(0), BudgetKind::Token(1), BudgetKind::Token(2), BudgetKind::Aimd] {
                         v.push(Cfg { max_attempts, per_request, backoff, predicate, budget });
@@ -404,5 +408,6 @@ pub fn shared_configs(tier: Tier) -> Vec<Shared> {
         }
     }
     v.push(Shared { cfg: Cfg { max_attempts: 2, per_request: false, backoff: Backoff::Fixed, predicate: false, budget: BudgetKind::Aimd }, callers: 2, max_ticks: 3 });
+    v.push(Shared { cfg: Cfg { max_attempts: 3, per_request: false, backoff: Backoff::Zero, predicate: false, budget: BudgetKind::Token(1) }, callers: 2, max_ticks: 1 });
     v
 }
